@@ -205,7 +205,7 @@ func (w *World) MakeTx(r *fw.Rand, kind TxKind, sender int, nonce uint64, num *b
 		// same block, generator's choice) send to it again
 		call(AddrNested, val(), 300000, Cat(WordU(KindCall), WordAddr(AddrSuicide2), WordU(uint64(r.Intn(100))), WordAddr(AddrSink)))
 	case TxBlob:
-		call(w.Blobs[r.Intn(len(w.Blobs))], val(), uint64(r.Range(25000, 150000)), r.Bytes(r.Intn(64)))
+		call(w.Blobs[r.Intn(len(w.Blobs))], val(), uint64(r.Range(30000, 150000)), r.Bytes(r.Intn(64)))
 	default:
 		panic("unknown tx kind " + string(kind))
 	}
